@@ -15,6 +15,27 @@ func (vc *VC) evalCall(st *State, call *ast.CallExpr) []Term {
 
 // evalCallWith evaluates a call; recv/args/fn may be pre-evaluated (defer).
 func (vc *VC) evalCallWith(st *State, call *ast.CallExpr, preRecv *Term, preArgs []Term, preFn *Term) []Term {
+	// &x.f arguments are passed as a temporary cell holding the field's value; whatever the callee stored there
+	// is copied back into the field when the call returns (no interior pointers in the memory model)
+	n := len(st.fieldWB)
+	rets := vc.evalCallWith0(st, call, preRecv, preArgs, preFn)
+	if len(st.fieldWB) > n {
+		wbs := append([]fieldWriteBack(nil), st.fieldWB[n:]...)
+		st.fieldWB = st.fieldWB[:n]
+		for _, wb := range wbs {
+			pt := under(wb.cell.T).(*types.Pointer)
+			vc.assign(st, wb.lhs, vc.loadDeref(st, vc.ts.apply(pt.Elem()), wb.cell.S))
+		}
+	}
+	return rets
+}
+
+type fieldWriteBack struct {
+	cell Term
+	lhs  ast.Expr
+}
+
+func (vc *VC) evalCallWith0(st *State, call *ast.CallExpr, preRecv *Term, preArgs []Term, preFn *Term) []Term {
 	// conversion?
 	if tv, ok := vc.info.Types[call.Fun]; ok && tv.IsType() {
 		to := vc.ts.apply(tv.Type)
@@ -1014,6 +1035,26 @@ func (vc *VC) builtinExtern(st *State, callee *types.Func, recv *Term, args []Te
 			fin.S = ite("("+okf+" "+data.S+")", nv.S, old.S)
 			vc.assign(st, target, fin)
 			vc.note("assumed: encoding/json.Unmarshal is a deterministic, panic-free function of its input bytes (abs.jsonDecoded / abs.jsonOK)")
+			return []Term{e}, true
+		}
+	case full == "(*encoding/json.Decoder).Decode" && len(call.Args) == 1:
+		// dec.Decode(&x): x becomes some well-typed value (what the library decodes from the stream), or keeps its
+		// value on error. The library is assumed panic-free.
+		if ue, ok := ast.Unparen(call.Args[0]).(*ast.UnaryExpr); ok && ue.Op == token.AND {
+			target := ue.X
+			tt := vc.typeOf(target)
+			e := vc.fresh("err", errT)
+			st.assume(vc.u.wfIface(e.S, st.alloc))
+			nv := vc.fresh("decoded", tt)
+			na := vc.freshSort("alloc", "Int")
+			st.assume("(>= " + na.S + " " + st.alloc + ")")
+			st.alloc = na.S
+			st.assume(vc.u.WF(nv.S, tt, st.alloc))
+			old := vc.evalExprQuiet(st.clone(), target)
+			fin := nv
+			fin.S = ite(eq("(itag "+e.S+")", "0"), nv.S, old.S)
+			vc.assign(st, target, fin)
+			vc.note("assumed: (*json.Decoder).Decode is panic-free and stores a well-typed value (content unconstrained)")
 			return []Term{e}, true
 		}
 	case full == "context.TODO", full == "context.Background":
